@@ -1695,3 +1695,24 @@ package flags
 //@   props C15 C04
 //@   ensures[C15] r == len(c)
 //@   assigns nothing
+
+// C19: two options of one declaration sharing a short or a (namespaced) long
+// name are reported.  The two tables are the witnesses: while no duplicate has
+// been found every option visited so far is the one registered under its
+// names, hence no two of them share a name.
+//@ pure func dupOpt(g *Group, J int, i int) *Option = iterelem(Group.eachGroup, g, J, 0).options[i]
+//@ func (g *Group) checkForDuplicateFlags() (r *Error)
+//@   props C19 C04
+//@   requires g != nil
+//@   let root := g
+//@   loop 1 invariant !isnil(shortNames) && !isnil(longNames) && (duplicateError != nil ==> duplicateError.Type == ErrDuplicatedFlag)
+//@   loop 1 invariant duplicateError == nil ==> forall(J, 0, idx_1, forall(i, 0, len(iterelem(Group.eachGroup, root, J, 0).options), dupOpt(root, J, i).ShortName != 0 ==> shortNames[dupOpt(root, J, i).ShortName] == dupOpt(root, J, i)))
+//@   loop 1 invariant duplicateError == nil ==> forall(J, 0, idx_1, forall(i, 0, len(iterelem(Group.eachGroup, root, J, 0).options), dupOpt(root, J, i).LongName != "" ==> longNames[longNameOf(dupOpt(root, J, i))] == dupOpt(root, J, i)))
+//@   loop 2 invariant !isnil(shortNames) && !isnil(longNames) && (duplicateError != nil ==> duplicateError.Type == ErrDuplicatedFlag)
+//@   loop 2 invariant duplicateError == nil ==> forall(J, 0, idx_1, forall(i, 0, len(iterelem(Group.eachGroup, root, J, 0).options), dupOpt(root, J, i).ShortName != 0 ==> shortNames[dupOpt(root, J, i).ShortName] == dupOpt(root, J, i)))
+//@   loop 2 invariant duplicateError == nil ==> forall(J, 0, idx_1, forall(i, 0, len(iterelem(Group.eachGroup, root, J, 0).options), dupOpt(root, J, i).LongName != "" ==> longNames[longNameOf(dupOpt(root, J, i))] == dupOpt(root, J, i)))
+//@   loop 2 invariant duplicateError == nil ==> forall(i, 0, idx_2, dupOpt(root, idx_1, i).ShortName != 0 ==> shortNames[dupOpt(root, idx_1, i).ShortName] == dupOpt(root, idx_1, i))
+//@   loop 2 invariant duplicateError == nil ==> forall(i, 0, idx_2, dupOpt(root, idx_1, i).LongName != "" ==> longNames[longNameOf(dupOpt(root, idx_1, i))] == dupOpt(root, idx_1, i))
+//@   ensures[C19] r != nil ==> r.Type == ErrDuplicatedFlag
+//@   ensures[C19] r == nil ==> forall(J, 0, iterlen(Group.eachGroup, g), forall(i, 0, len(iterelem(Group.eachGroup, g, J, 0).options), forall(K, 0, iterlen(Group.eachGroup, g), forall(k, 0, len(iterelem(Group.eachGroup, g, K, 0).options), dupOpt(g, J, i).ShortName != 0 && dupOpt(g, J, i).ShortName == dupOpt(g, K, k).ShortName ==> dupOpt(g, J, i) == dupOpt(g, K, k)))))
+//@   ensures[C19] r == nil ==> forall(J, 0, iterlen(Group.eachGroup, g), forall(i, 0, len(iterelem(Group.eachGroup, g, J, 0).options), forall(K, 0, iterlen(Group.eachGroup, g), forall(k, 0, len(iterelem(Group.eachGroup, g, K, 0).options), dupOpt(g, J, i).LongName != "" && dupOpt(g, K, k).LongName != "" && longNameOf(dupOpt(g, J, i)) == longNameOf(dupOpt(g, K, k)) ==> dupOpt(g, J, i) == dupOpt(g, K, k)))))
